@@ -19,8 +19,12 @@ import time
 
 import vlib
 
-CRATE = os.path.join(vlib.HARNESS_DIR, "utilsmiri")
-ASAN_BIN = os.path.join(vlib.HARNESS_DIR, "target", "utilsmiri", "x86_64-unknown-linux-gnu", "debug", "utilsmiri")
+# (the three VERIF_UTILS* variables exist to point the check at another build of the replay crate, e.g. one linked
+# against a patched copy of /repo/utils when validating the check itself)
+CRATE = os.environ.get("VERIF_UTILSMIRI_CRATE", os.path.join(vlib.HARNESS_DIR, "utilsmiri"))
+ASAN_BIN = os.path.join(os.environ.get("VERIF_UTILSMIRI_TARGET", os.path.join(vlib.HARNESS_DIR, "target", "utilsmiri")),
+                        "x86_64-unknown-linux-gnu", "debug", "utilsmiri")
+NATIVE = [os.environ["VERIF_UTILS_NATIVE"]] if os.environ.get("VERIF_UTILS_NATIVE") else [vlib.HARNESS, "utils"]
 NIGHTLY = os.environ.get("VERIF_NIGHTLY", "nightly")
 MAX_JOBS = max(1, int(os.environ.get("VERIF_JOBS", "4")))     # replay processes running at the same time
 TLC_WORKERS = max(1, min(2, int(os.environ.get("VERIF_TLC_WORKERS", "2"))))
@@ -71,7 +75,7 @@ def build_miri(wd):
 
 def command(channel):
     if channel == "native":
-        return [vlib.HARNESS, "utils"], None, dict(os.environ)
+        return list(NATIVE), None, dict(os.environ)
     if channel == "asan":
         return [ASAN_BIN], None, dict(os.environ, ASAN_OPTIONS="detect_leaks=0:symbolize=0:abort_on_error=0:halt_on_error=0:suppress_equal_pcs=0")
     if channel in MIRI_MODES:
